@@ -25,7 +25,7 @@ EXPLANATION = (
     "skip/stride/atom_indices/chunk dependence.")
 NOT_DECIDED = ["equality of the values read (run-time)", "the XDR offset arithmetic inside C", "efficient-striding seek path of xtc/trr beyond its structure"]
 ASSUMPTIONS = ["read_next_timestep / read_xtc / read_trr consume exactly one frame per successful call"]
-FLOORS = {"C02-R1": 30, "C02-R2": 3, "C02-R3": 3, "C02-R4": 20, "C02-R5": 15, "C02-R6": 7, "C02-R7": 8, "C02-R8": 38}
+FLOORS = {"C02-R1": 30, "C02-R2": 2, "C02-R3": 3, "C02-R4": 20, "C02-R5": 15, "C02-R6": 7, "C02-R7": 8, "C02-R8": 60}
 
 LOADERS = {  # ext -> class key
     ".xtc": "xtc", ".trr": "trr", ".dcd": "dcd", ".dtr": "dtr", ".h5": "h5", ".nc": "nc", ".mdcrd": "mdcrd", ".xyz": "xyz",
@@ -152,6 +152,7 @@ def check(ctx):
     _r10_xdr_readers(ctx)
     _r11_array_store_readers(ctx)
     _r12_dcd_reader(ctx)
+    _r13_arc_reader(ctx)
 
 
 # ---------------------------------------------------------------------------------------------
@@ -326,8 +327,8 @@ def _rat_by_evaluation(ctx):
 
 # ---------------------------------------------------------------------------------------------
 def _r2(ctx):
-    # decided by value instead: xyz, mdcrd, lammpstrj, gro, h5, nc, dcd in R8 (read() evaluated on a model file), xtc / trr in R3 (_read on a model file)
-    for key in ["dtr", "arc", "lh5"]:
+    # decided by value instead: xyz, mdcrd, lammpstrj, gro, h5, nc, dcd, arc in R8 (read() evaluated on a model file), xtc / trr in R3 (_read on a model file)
+    for key in ["dtr", "lh5"]:
         rel, cls = F.rel_cls(key)
         mname = "_read" if key in ("xtc", "trr") else "read"
         fn = F.method(ctx, key, mname)
@@ -731,6 +732,7 @@ def _r8_text_readers(ctx):
         ("single strided frames (iterload chunk=1)", [("read", dict(n_frames=1, stride=2)), ("read", dict(n_frames=1, stride=2)), ("read", dict(n_frames=1, stride=3)), ("read", dict())]),
         ("atom selection of strided frames", [("read", dict(stride=2, atom_indices=[2, 0]))]),
         ("seek, then read", [("seek", 5), ("read", dict()), ("seek", 1), ("read", dict(n_frames=2, stride=2)), ("tell", None)]),
+        ("seek to the end (iterload skip = number of frames), then read", [("seek", 7), ("tell", None), ("read", dict())]),
     ]
     if ctx.tier == "thorough":
         seqs += [("stride larger than what is left", [("read", dict(n_frames=1, stride=5)), ("read", dict(n_frames=2, stride=4)), ("read", dict())]),
@@ -804,6 +806,126 @@ def _r8_text_readers(ctx):
                 ctx.decide(not why, "C02-R8", rfn, rel, q, desc, "", "; ".join(why[:2]))
             except Raised as e:
                 ctx.violated("C02-R8", rfn, rel, q, desc, "refused: %s" % (e.exc or e))
+            except PUnsupported as e:
+                ctx.undecided("C02-R8", rfn, rel, q, desc, "not evaluable: %s" % e)
+
+
+def _r13_arc_reader(ctx):
+    """ArcTrajectoryFile.read / read_as_traj / _read evaluated (sa/tensym.py, sa/ttext.py) on a model TINKER archive of seven frames laid out as the
+    format is (atom count and title; optionally a line of six cell numbers; one line per atom: number, name, x, y, z, type, bonded atoms), the
+    coordinates symbolic.  The class has no writer, so the text is built here.  Decided by value for sequences of calls on one file object: read(n,
+    stride=s) at frame P returns the frames P, P+s, ... (n of them or up to the end - also when the stride does not divide what is left), atoms
+    selected by atom_indices, the cell rows of the same frames; read_as_traj gives them the times P, P+s, ... of the frames' positions in the file."""
+    from .. import writers as W
+    from ..tensym import Raised, Ten, FVal, Obj, TenSym, Rat, Poly
+    from ..pysym import Unsupported as PUnsupported
+    NF, NA = 7, 3
+    rel, cls = F.rel_cls("arc")
+    rfn = F.method(ctx, "arc", "read")
+    q = cls + ".read"
+    names = ["N", "CL", "H"]
+    bonds = [[2], [1, 3], []]
+    seqs = [
+        ("all frames", [("read", dict())]),
+        ("strided reads continue where the last one stopped", [("read", dict(n_frames=2, stride=2)), ("read", dict(n_frames=1)), ("read", dict(stride=3))]),
+        ("a stride that does not divide the frames left", [("read", dict(stride=2))]),
+        ("n_frames counts frames returned", [("read", dict(n_frames=2, stride=3)), ("read", dict())]),
+        ("atom selection of strided frames", [("read", dict(stride=3, atom_indices=[2, 0]))]),
+        ("times of chunks (iterload chunk=2, stride=2)", [("read_as_traj", dict(n_frames=2, stride=2)), ("read_as_traj", dict(n_frames=2, stride=2))]),
+        ("times of a strided load", [("read_as_traj", dict(stride=3))]),
+    ]
+    for cell in (True, False):
+        for title, seq in seqs:
+            desc = "%s%s: %s" % (title, "" if cell else " (no cell line)", ", ".join("%s(%s)" % (m_, ", ".join("%s=%s" % kv for kv in a_.items())) for m_, a_ in seq))
+            x = Ten.sym("x", (NF, NA, 3))
+            L = Ten.sym("L", (NF, 3))
+            A = Ten.sym("A", (NF, 3))
+            pieces = []
+            for f_ in range(NF):
+                pieces += ["%6d  archive frame\n" % NA]
+                if cell:
+                    pieces += [FVal(v_, "12.6f") for v_ in L.data[f_ * 3: f_ * 3 + 3]] + [FVal(v_, "12.6f") for v_ in A.data[f_ * 3: f_ * 3 + 3]] + ["\n"]
+                for a_ in range(NA):
+                    pieces += ["%6d  %-3s" % (a_ + 1, names[a_])] + [FVal(x.data[(f_ * NA + a_) * 3 + k_], "12.6f") for k_ in range(3)] + ["%6d" % (8 + a_)] + ["%6d" % b_ for b_ in bonds[a_]] + ["\n"]
+            try:
+                root = W.new_root()
+                fh = W.text_file(pieces)
+                me = W.reader_object(ctx, "arc", fh, topology=None)
+                tops, made = [], []
+
+                def mktop(ev, call, _tops=tops):
+                    t = Obj(tag="topology", _lenient=True)
+                    t._atoms, t._bonds = [], []
+                    t.add_chain = lambda *a_, **k_: Obj(tag="chain")
+                    t.add_residue = lambda *a_, **k_: Obj(tag="residue")
+
+                    def add_atom(name, element, residue, **k_):
+                        a = Obj(tag="atom " + str(name), name=name, element=element, index=len(t._atoms))
+                        t._atoms.append(a)
+                        return a
+                    t.add_atom = add_atom
+                    t.add_bond = lambda a_, b_, **k_: t._bonds.append((a_.index, b_.index))
+                    t._getters = {"atoms": lambda s_: list(s_._atoms), "n_atoms": lambda s_: len(s_._atoms)}
+                    t.subset = lambda idx: Obj(tag="subset", n_atoms=len(idx), _of=list(idx), _lenient=True)
+                    _tops.append(t)
+                    return t
+
+                def mktraj(ev, call, _made=made):
+                    kw = {k.arg: ev.ex(k.value) for k in call.keywords}
+                    _made.append(kw)
+                    return Obj(tag="traj", _lenient=True)
+
+                def by_symbol(sym):
+                    if str(sym).upper() not in ("N", "C", "H", "O", "CL", "NA", "MG"):
+                        raise Raised("the analysed path raises KeyError", "KeyError(%r)" % (sym,))
+                    return Obj(tag="element " + str(sym), symbol=str(sym))
+                models = {"Topology": mktop, "Trajectory": mktraj, "in_units_of": lambda ev, c: ev.ex(c.args[0])}
+                env = {"Element": Obj(getBySymbol=by_symbol, _lenient=True), "virtual": Obj(tag="virtual"), "Trajectory": Obj(_distance_unit="nanometers")}
+                P, why = 0, []
+                for m_, a_ in seq:
+                    n_, s_ = a_.get("n_frames"), a_.get("stride") or 1
+                    want = [f_ for f_ in range(P, NF, s_)]
+                    if n_ is not None:
+                        want = want[:n_]
+                    sel = a_.get("atom_indices")
+                    atoms = sel if sel is not None else list(range(NA))
+                    del made[:]
+                    rel_, cls_ = F.rel_cls("arc")
+                    mod = ctx.py.mod(rel_)
+                    ts = TenSym(dict(env), funcs={q_: f_ for q_, f_ in mod.functions.items() if "." not in q_}, models=dict(models, **{"warnings.warn": lambda ev, c: None}), parent=root)
+                    ts.module_env = dict(env)
+                    ts.assume = W.assume
+                    got = ts.run_fn(F.method(ctx, "arc", m_), self=me, **a_)
+                    if m_ == "read_as_traj":
+                        if len(made) != 1:
+                            why.append("%s builds %d Trajectory objects" % (m_, len(made)))
+                            break
+                        xyz, lens, angs, tm = made[0].get("xyz"), made[0].get("unitcell_lengths"), made[0].get("unitcell_angles"), made[0].get("time")
+                        if not (isinstance(tm, Ten) and tm.shape == (len(want),) and all(_same(p_, Rat(Poly.const(f_))) for p_, f_ in zip(tm.data, want))):
+                            why.append("read_as_traj(%s) at frame %d gives the times %s; the frames are %s of the file" % (", ".join("%s=%s" % kv for kv in a_.items()), P, [str(v_) for v_ in tm.data] if isinstance(tm, Ten) else tm, want))
+                    else:
+                        res = list(got) if isinstance(got, tuple) else [got]
+                        xyz, lens, angs = (res + [None, None])[:3]
+                    exp = [x.data[(f_ * NA + at_) * 3 + k_] for f_ in want for at_ in atoms for k_ in range(3)]
+                    ok = isinstance(xyz, Ten) and (list(xyz.shape) == [len(want), len(atoms), 3] or (not want and len(xyz.data) == 0)) and all(_same(a1, b1) for a1, b1 in zip(xyz.data, exp))
+                    if not ok:
+                        first = [repr(xyz.data[i_ * len(atoms) * 3]) for i_ in range(xyz.shape[0])] if isinstance(xyz, Ten) and xyz.ndim == 3 and xyz.shape[1:] == (len(atoms), 3) else getattr(xyz, "shape", xyz)
+                        why.append("%s(%s) at frame %d returns %s, the definition is frames %s%s" % (m_, ", ".join("%s=%s" % kv for kv in a_.items()), P, first, want, "" if sel is None else " of atoms %s" % sel))
+                    if want:
+                        if cell:
+                            for nm_, v_, src_ in (("lengths", lens, L), ("angles", angs, A)):
+                                if not (isinstance(v_, Ten) and v_.shape == (len(want), 3) and all(_same(a1, b1) for a1, b1 in zip(v_.data, [src_.data[f_ * 3 + k_] for f_ in want for k_ in range(3)]))):
+                                    why.append("the cell %s returned are not those of frames %s" % (nm_, want))
+                        elif lens is not None or angs is not None:
+                            why.append("a cell is returned for a file without cell lines")
+                    P = min(NF, P + (n_ * s_ if n_ is not None else NF))
+                if tops:
+                    t0 = tops[0]
+                    if [a_.name for a_ in t0._atoms] != names or sorted(t0._bonds) != [(0, 1), (1, 2)] or len(tops) != 1:
+                        why.append("the topology built has atoms %s and bonds %s (%d built); the file has %s with bonds 1-2, 2-3" % ([a_.name for a_ in t0._atoms], sorted(t0._bonds), len(tops), names))
+                ctx.decide(not why, "C02-R8", rfn, rel, q, desc, "", "; ".join(why[:2]))
+            except Raised as e:
+                ctx.violated("C02-R8", rfn, rel, q, desc, "raises %s" % (e.exc or e))
             except PUnsupported as e:
                 ctx.undecided("C02-R8", rfn, rel, q, desc, "not evaluable: %s" % e)
 
@@ -987,6 +1109,7 @@ def _r11_array_store_readers(ctx):
         ("single strided frames (iterload chunk=1)", [("read", dict(n_frames=1, stride=2)), ("read", dict(n_frames=1, stride=2)), ("read", dict(n_frames=1, stride=3)), ("read", dict())]),
         ("atom selection of strided frames", [("read", dict(stride=2, atom_indices=[2, 0]))]),
         ("seek, then read", [("seek", 5), ("read", dict()), ("seek", 1), ("read", dict(n_frames=2, stride=2)), ("tell", None)]),
+        ("seek to the end (iterload skip = number of frames), then read", [("seek", 7), ("tell", None), ("read", dict())]),
     ]
     for key in ("h5", "nc"):
         rel, cls = F.rel_cls(key)
@@ -1189,6 +1312,7 @@ def _r12_dcd_reader(ctx):
         ("single strided frames (iterload chunk=1)", [("read", dict(n_frames=1, stride=2)), ("read", dict(n_frames=1, stride=2)), ("read", dict(n_frames=1, stride=3)), ("read", dict())]),
         ("atom selection of strided frames", [("read", dict(stride=2, atom_indices=[2, 0]))]),
         ("seek, then read", [("seek", 5), ("read", dict()), ("seek", 1), ("read", dict(n_frames=2, stride=2)), ("tell", None)]),
+        ("seek to the end (iterload skip = number of frames), then read", [("seek", 7), ("tell", None), ("read", dict())]),
     ]
     for title, seq in seqs:
         desc = "%s: %s" % (title, ", ".join("%s(%s)" % (m_, ", ".join("%s=%s" % kv for kv in a_.items()) if isinstance(a_, dict) else ("" if a_ is None else a_)) for m_, a_ in seq))
